@@ -147,6 +147,71 @@ claim("C20", "E2", "exhaustive product of option subsets/values x version x "
       "4/C20")
 
 
+_ENV = ("; process-environment axis: a sub-catalogue of the operations under "
+        "every member of envrun.ENVS (an operation may refuse, but must not "
+        "leave a wrong artefact or report a wrong number)")
+EXTRA = {
+    "C01": "; also: hard-linked and sparse payload files, one E2 fault per "
+           "create (open / read incl. raw short reads / listdir / progress "
+           "write), host callbacks and progress trackers, every schedule of "
+           "two interleaved / re-entrant hasher iterators" + _ENV,
+    "C02": "; also: hard-linked and sparse payload files, symbolic links "
+           "inside the content (consistent policy), one E2 fault per create, "
+           "host callbacks and progress trackers, interleaved hasher "
+           "iterators" + _ENV,
+    "C03": "; also: hard-linked and sparse payload files, symbolic links "
+           "inside the content, one E2 fault per create, host callbacks and "
+           "progress trackers, interleaved hasher iterators" + _ENV,
+    "C10": "; also: hard-linked and sparse payload files, host callbacks and "
+           "progress trackers, every schedule of two interleaved / re-entrant "
+           "hasher iterators of each class" + _ENV,
+    "C15": "; also: automatic piece length over > 1000 files, output inside "
+           "the content created twice, interleaved hasher iterators" + _ENV,
+    "C04": "; also: environment forms of the content (path spellings incl. "
+           "through symlinks, symlinked sub-directory, pruned directories, "
+           "sparse storage, below PATH_MAX-long paths), zero-region contents, "
+           "kept Checker objects (made while incomplete, abandoned walks)"
+           + _ENV,
+    "C05": "; also: text-like digest witness contents, environment forms of "
+           "the content, zero-region contents, kept Checker objects" + _ENV,
+    "C16": "; also: environment forms of the content, zero-region contents "
+           "(one family of known findings), kept Checker objects" + _ENV,
+    "C06": "; also: payload names that are not valid UTF-8 (refuse or write "
+           "canonically)" + _ENV,
+    "C07": "; also: bases with same-named keys in the other dictionary, "
+           "state-derived overlap probes, debug-logging routes, a request "
+           "object re-used across files, commands.edit(Namespace)",
+    "C08": "; also: dense original vs sparse copy, payload reached through "
+           "symbolic links" + _ENV,
+    "C09": "; also: pattern families failed / cli / magnet / keep (kept "
+           "creator objects re-assembled after the payload changed)",
+    "C11": "; also: info-level keys named like the top-level fields, 13 "
+           "calling styles of magnet",
+    "C12": "; also: digit strings / integers beyond Python's conversion "
+           "limit, what already lies at the output path for the automatic "
+           "choice" + _ENV,
+    "C13": "; also: names of 241-255 bytes, pieces spanning > 1000 files, "
+           "text-like digest witnesses, library forms (contents list mutated "
+           "after construction, drivers), every interleaving of construct / "
+           "run for two and three live Assemblers, path names containing "
+           "$VAR / ~",
+    "C14": "; also: pad-named decoys, a directory at a target path, the "
+           "metafile inside the destination, path names containing $VAR / ~"
+           + _ENV,
+    "C17": "; also: metafile names of 250 / 255 bytes, taken temporary names, "
+           "bytes and pathlib metafile paths, boolean values",
+    "C18": "; also: symlink / hard-link aliases in rename, temp-named "
+           "bystanders at every output location, dangling-link output paths"
+           + _ENV,
+    "C19": "; also: OS-refused copies x 11 destination spellings x "
+           "surroundings (incl. under the FS-operation shim, bound 1), symlink "
+           "pre-states, four drivers, path names containing $VAR / ~",
+    "C20": "; also: whole-value classes (boolean words, percent forms, "
+           "@-prefix), every option name as a config key, int / str "
+           "meta_version" + _ENV,
+}
+
+
 def registered():
     out = subprocess.run(
         ["/venv/bin/python", "-c",
@@ -165,6 +230,7 @@ def main():
         pid = p["id"]
         if pid in CLAIMS and pid in reg:
             engine, tech, text, note, ref = CLAIMS[pid]
+            text = text + EXTRA.get(pid, "")
             checks.append({
                 "property_id": pid,
                 "quick_cmd": f"bin/check {pid} --tier quick",
@@ -203,10 +269,24 @@ def main():
              "serves_properties": ["C08", "C17", "C18", "C19", "C20"],
              "kind_free_text": "deviation-bounded choice-point explorer "
                                "(environment answers, faults, crash points)"},
-            {"name": "E3", "path": "mc/e3.py",
+            {"name": "E3", "path": "mc/checks/history.py",
              "serves_properties": ["C06", "C07", "C09", "C14"],
              "kind_free_text": "explicit-state BFS over operation histories "
-                               "re-executed on the real code"},
+                               "re-executed on the real code (the search "
+                               "loops live in mc/checks/history.py, "
+                               "mc/checks/editfam.py and mc/checks/rebuild.py; "
+                               "mc/zygote.py is the pristine fork server)"},
+            {"name": "E4", "path": "mc/envrun.py",
+             "serves_properties": ["C01", "C02", "C03", "C04", "C05", "C06",
+                                   "C08", "C10", "C12", "C14", "C15", "C16",
+                                   "C18", "C20"],
+             "kind_free_text": "process-environment axis: every operation of a "
+                               "check's sub-catalogue executed in a child "
+                               "interpreter under every member of a named "
+                               "alphabet of environments (terminal widths, "
+                               "python -O, filesystem / locale encodings, dead "
+                               "stdout, removed cwd, ...), judged by the "
+                               "check's own oracle"},
         ],
         "checks": checks,
         "not_applicable": na,
